@@ -396,6 +396,8 @@ impl Prop for C16 {
     let c = cal();
     match t {
       "limit" => {
+        // strided walks on fresh threads (see engine::stride_walks)
+        stride_walks(env, out, "limit", env.tier.pick(800, 24000) / nshards as u32, 7000 + shard as u64, 366, (crate::model::NDAYS as i64) - 4400, 800, &|x| vec![x, (x * 7919).rem_euclid(86400), x & 1], &ev);
         // deterministic: around Jie instants of stratified years
         let ys = stratified_years(2, 9987, 100, &SPECIAL_YEARS, env.seed);
         for (j, y) in ys.iter().enumerate() {
